@@ -44,7 +44,7 @@ func init() {
 		Run:          Run,
 		MaxSteps:     200000,
 		YieldFiles:   []string{"cred/manager.go", "ss2022/credstore.go"},
-		QuickRuns:    8000,
+		QuickRuns:    6000,
 		ThoroughSecs: 600,
 		Rule: "one run = one flavour (quiet | duplicate-key | save-race | concurrent-disjoint | concurrent-same-user | concurrent-reload | anything | empty-store-file), key size, " +
 			"store configuration (both/tcp/udp), 3-4 user names, 3-8 keys, an initial store document and 1-4 API clients that draw up to 32 operations " +
